@@ -182,11 +182,16 @@ func randIPv4(rng *rand.Rand) string {
 func randIPv6(rng *rand.Rand) string {
 	var b [16]byte
 	rng.Read(b[:])
-	switch rng.Intn(5) {
+	switch rng.Intn(7) {
 	case 0:
 		return "::1"
 	case 1:
 		return "::ffff:" + randIPv4(rng)
+	case 5, 6:
+		// mixed notation (RFC 4291 2.2 form 3): hex groups followed by a dotted quad; three dots,
+		// yet not an IPv4-mapped address
+		pre := []string{"::", "64:ff9b::", "2001:db8::", "fe80::", fmt.Sprintf("2001:db8:%x::", rng.Intn(1<<16)), fmt.Sprintf("%x:%x:%x:%x:%x:%x:", 1+rng.Intn(0xfffe), rng.Intn(1<<16), rng.Intn(1<<16), rng.Intn(1<<16), rng.Intn(1<<16), rng.Intn(1<<16))}[rng.Intn(6)]
+		return randCase(rng, pre+randIPv4(rng))
 	case 2:
 		for i := 2; i < 14; i++ {
 			b[i] = 0
@@ -555,7 +560,7 @@ func runE2E(lab *gwlab.Lab, c e2eCase) (string, error) {
 func main() {
 	r := ev.Start("C34", "exploration")
 	r.SetMaxSamples(9)
-	r.SetRule("function level: per root-domain list (0-3 lower-case roots of >= 2 labels, fixed + PRNG) hosts are generated per class {label.root, deep.root, root-itself, suffix-lookalike, other >=3 labels, 2 labels, 1 label/empty, IPv4, IPv6 incl. v4-mapped, numeric non-address, empty labels, arbitrary string} with letter-case patterns {lower, upper, mixed, root-part-only}; a case is distinct by (class, case pattern of the host, expected outcome label/whole/refuse/unjudged, number of roots, root-part-differs-only-in-case); every host is also paired with a random re-casing (metamorphic). End to end: (protocol h1/h2/h3/tcp-yamux/tcp-quic/connect, class, case pattern, outcome) observed at tun.Server.DialClient of a real gateway")
+	r.SetRule("function level: per root-domain list (0-3 lower-case roots of >= 2 labels, fixed + PRNG) hosts are generated per class {label.root, deep.root, root-itself, suffix-lookalike, other >=3 labels, 2 labels, 1 label/empty, IPv4, IPv6 incl. v4-mapped and mixed hex/dotted-quad notation, numeric non-address, empty labels, arbitrary string} with letter-case patterns {lower, upper, mixed, root-part-only}; a case is distinct by (class, case pattern of the host, expected outcome label/whole/refuse/unjudged, number of roots, root-part-differs-only-in-case); every host is also paired with a random re-casing (metamorphic). End to end: (protocol h1/h2/h3/tcp-yamux/tcp-quic/connect, class, case pattern, outcome) observed at tun.Server.DialClient of a real gateway")
 	r.Assume("configured root domains are lower-case and have at least two labels (a one-label root makes 'label.root' a two-label host, where the statement contradicts itself)")
 	r.Assume("hosts with empty labels (leading/trailing/doubled dots) are judged for case-insensitivity only; IPv6 zones and bracketed literals are not generated (the host reaches the mapping after net.SplitHostPort)")
 	r.Assume("the canonical letter case of the result is not pinned by the statement: results are compared case-insensitively with the model and exactly between case variants")
